@@ -97,4 +97,69 @@ theorem f64LESpec : F64LESpec := by
     unfold GoSem.float64frombits
     rw [ofBitVec_eq, hn]
 
+/-! ## 2. the theorems of `GenSketch7` without the hypothesis -/
+
+section Inst
+variable {M : Type} [MapI M] [Inhabited M]
+
+theorem xfb_spec' (fuel : Nat) (hf : 9 ≤ fuel) : FbSpecS (XR (M := M)) (xfb (M := M) fuel) :=
+  xfb_spec f64LESpec fuel hf
+
+theorem XDecodeAndMergeWith_rel_gen' {idOf : M → Option MapId} (law : MapLaw idOf)
+    (fuel : Nat) (g : DDSketchWithExactSummaryStatistics M Store) (b : List (BitVec 8))
+    (hf : b.length + 9 ≤ fuel) :
+    XDecRel idOf ((ofGenXI idOf g).decodeAndMergeWith (nb b))
+      (Gen.SketchIter.DDSketchWithExactSummaryStatistics.DecodeAndMergeWith fuel g b) :=
+  XDecodeAndMergeWith_rel_gen law f64LESpec fuel g b hf
+
+theorem XDecodeAndMergeWith_rel' (env : MapEnv) (x : XSketch)
+    (hm : x.sk.mapping = some env.id) (fuel : Nat) (b : List (BitVec 8)) (hf : b.length + 9 ≤ fuel) :
+    XDecRel (fun e : MapEnv => some e.id) (x.decodeAndMergeWith (nb b))
+      (Gen.SketchIter.DDSketchWithExactSummaryStatistics.DecodeAndMergeWith fuel (toGenX env x) b) :=
+  XDecodeAndMergeWith_rel f64LESpec env x hm fuel b hf
+
+theorem DecodeExact_relO' (fuel : Nat) (b : List (BitVec 8)) (k : StoreKind)
+    (m : Option MapEnv) (hf : b.length + 9 ≤ fuel) :
+    XDecRel (fun o : Option MapEnv => o.map (fun e => e.id))
+      ((XSketch.new (m.map (fun e => e.id)) k).decodeAndMergeWith (nb b))
+      (Gen.SketchIter.DecodeDDSketchWithExactSummaryStatistics fuel b (provider k) m) :=
+  DecodeExact_relO f64LESpec fuel b k m hf
+
+end Inst
+
+/-! ## 3a. the round trip of the regenerated pair -/
+
+/-- decoding the eight bytes the model writes for a 64-bit pattern, followed by anything -/
+theorem DecodeFloat64LE_enc (fuel : Nat) (n : Nat) (hn : n < W64) (rest : List (BitVec 8)) :
+    DecodeFloat64LE fuel (bn (encF64LE n) ++ rest) = .ok (rest, F64.ofBits (UInt64.ofNat n), GoErr.nil) := by
+  have hl : (bn (encF64LE n)).length = 8 := by simp [bn, encF64LE]
+  have hnb : nb (bn (encF64LE n) ++ rest) = encF64LE n ++ nb rest := by
+    rw [nb_append, nb_bn _ (GenMapId.encF64LE_bytes n)]
+  rw [f64LESpec fuel, hnb, decF64LE_encF64LE n hn]
+  show Res.ok ((bn (encF64LE n) ++ rest).drop 8, _, _) = _
+  rw [List.drop_left' hl]
+
+/-- **round trip on the regenerated pair**: `DecodeFloat64LE (EncodeFloat64LE b v)` read from where the
+    encoder started writing gives back the float of the bit pattern of `v`, the bytes that follow, a nil
+    error — every fuel on both sides, every float -/
+theorem decode_encode_bits (f1 f2 : Nat) (b rest : List (BitVec 8)) (v : F64) :
+    ∃ bs, EncodeFloat64LE f1 b v = .ok (b ++ bs) ∧
+      DecodeFloat64LE f2 (bs ++ rest) = .ok (rest, F64.ofBits v.toBits, GoErr.nil) := by
+  refine ⟨_, GenMapId.EncodeFloat64LE_eq f1 b v, ?_⟩
+  rw [DecodeFloat64LE_enc f2 _ (by unfold W64; exact v.toBits.toNat_lt) rest, UInt64.ofNat_toNat]
+
+/-- the value itself for every float that is its own bit pattern's value (all representable finite
+    values by `F64.toBits_ofBits_rep`, the infinities; the model has one NaN and one zero) -/
+theorem decode_encode (f1 f2 : Nat) (b rest : List (BitVec 8)) (v : F64)
+    (hv : F64.ofBits v.toBits = v) :
+    ∃ bs, EncodeFloat64LE f1 b v = .ok (b ++ bs) ∧
+      DecodeFloat64LE f2 (bs ++ rest) = .ok (rest, v, GoErr.nil) := by
+  obtain ⟨bs, h1, h2⟩ := decode_encode_bits f1 f2 b rest v
+  exact ⟨bs, h1, by rw [h2, hv]⟩
+
+theorem decode_encode_rep (f1 f2 : Nat) (b rest : List (BitVec 8)) (q : Rat) (hq : F64.isRep q = true) :
+    ∃ bs, EncodeFloat64LE f1 b (.fin q) = .ok (b ++ bs) ∧
+      DecodeFloat64LE f2 (bs ++ rest) = .ok (rest, .fin q, GoErr.nil) :=
+  decode_encode f1 f2 b rest _ (F64.toBits_ofBits_rep q hq)
+
 end DDS.GenF64LE
